@@ -205,6 +205,7 @@ type plYArgs struct {
 	Name  string            `json:"name"`
 	Wd    string            `json:"wd"`
 	Home  string            `json:"home"`
+	Main  string            `json:"mainFile"`
 }
 
 func realLoadY(raw json.RawMessage) any {
@@ -243,7 +244,7 @@ func realLoadY(raw json.RawMessage) any {
 		details.ConfigFiles = append(details.ConfigFiles, types.ConfigFile{Filename: fmt.Sprintf("%s/f%d.yaml", a.Wd, i), Content: []byte(text)})
 	}
 	dict, err := loader.LoadModelWithContext(context.Background(), details, func(o *loader.Options) {
-		o.SkipExtends, o.SkipInclude = true, true
+		o.SkipExtends, o.SkipInclude = !a.Opts.Extends, true
 		o.SkipInterpolation = a.Opts.SkipInterpolation
 		o.SkipValidation = a.Opts.SkipValidation
 		o.SkipDefaultValues = a.Opts.SkipDefaultValues
@@ -308,7 +309,7 @@ func addCaseY(ctx *core.Ctx, kind string, files [][]*yNode, o plOpts, env map[st
 	} else {
 		ctx.Count("pipelineY:tags>0")
 	}
-	ctx.Add("pipeline.loadY", plYArgs{Files: w, Opts: o, Env: env, Name: name, Wd: wd, Home: home})
+	ctx.Add("pipeline.loadY", plYArgs{Files: w, Opts: o, Env: env, Name: name, Wd: wd, Home: home, Main: wd + "/f0.yaml"})
 }
 
 func countTags(d *yNode) int {
